@@ -145,3 +145,118 @@ def impl_pystr(op, *a):
     if op == 'lt':
         return tf(a[0] < a[1])
     return '?op'
+
+
+# ---------------------------------------------------------------- raw / reader / writer
+
+class ScheduledStream(object):
+    """a readable text stream whose k-th read(n) returns min(n, cap_k, remaining) characters"""
+
+    def __init__(self, text, sched):
+        self.text = text
+        self.pos = 0
+        self.sched = list(sched)
+        self.closed = False
+
+    def read(self, n=-1):
+        if n is None or n < 0:
+            n = len(self.text) - self.pos
+        cap = max(1, self.sched.pop(0)) if self.sched else n
+        k = min(n, cap)
+        out = self.text[self.pos:self.pos + k]
+        self.pos += len(out)
+        return out
+
+    def close(self):
+        self.closed = True
+
+
+def show_rawst(r):
+    rep = getattr(r, 'repetition_term', None)
+    return ','.join([hx(r.seg_term), hx(r.ele_term), hx(r.subele_term), opt(hx, rep), r.icvn])
+
+
+def impl_raw(text, sched):
+    from pyx12.rawx12file import RawX12File
+    try:
+        r = RawX12File(ScheduledStream(text, sched))
+        lines = list(r)
+        return '|'.join([show_rawst(r)] + [hx(x) for x in lines])
+    except Exception as e:  # noqa
+        return core.exn_name(e)
+
+
+def seg_struct(sg):
+    parts = [opt(hx, sg.get_seg_id())]
+    for comp in sg.elements:
+        parts.append('.'.join(hx(e.get_value()) for e in comp.elements))
+    return ';'.join(parts)
+
+
+def show_errs(errs):
+    return ','.join('/'.join([e[0], e[1], opt(str, e[4])]) for e in errs)
+
+
+def impl_reader(lx, text, sched, stream=None):
+    import pyx12.x12file
+    try:
+        src = pyx12.x12file.X12Reader(stream if stream is not None else ScheduledStream(text, sched))
+    except Exception as e:  # noqa
+        return core.exn_name(e)
+    src.check_837_lx = bool(lx)
+    out = [','.join([hx(src.seg_term), hx(src.ele_term), hx(src.subele_term), opt(hx, src.repetition_term), src.icvn])]
+    try:
+        for seg in src:
+            out.append(seg_struct(seg) + ':' + show_errs(src.pop_errors()))
+        src.cleanup()
+        out.append('C' + show_errs(src.pop_errors()))
+    except Exception as e:  # noqa
+        out.append(core.exn_name(e))
+    return '|'.join(out)
+
+
+def impl_writer(wd, rep, eol, ds, lx, ops):
+    """ops: 'W<segment text>' or 'C'"""
+    import io
+    import pyx12.x12file
+    import pyx12.segment
+    fd = io.StringIO()
+    w = pyx12.x12file.X12Writer(fd, wd[0], wd[1], wd[2], eol, rep)
+    w.check_837_lx = bool(lx)
+    out = []
+    mark = 0
+    for op in ops:
+        try:
+            if op[0] == 'W':
+                w.Write(pyx12.segment.Segment(op[1:], ds[0], ds[1], ds[2]))
+            elif op[0] == 'C':
+                w.Close()
+            else:
+                out.append('?op')
+                break
+        except Exception as e:  # noqa
+            out.append(core.exn_name(e))
+            break
+        text = fd.getvalue()
+        new = text[mark:]
+        mark = len(text)
+        # one entry per written segment (each ends with eol)
+        if new:
+            pieces = split_written(new, wd[0], eol)
+            out.extend(hx(p) for p in pieces)
+    return '|'.join(out)
+
+
+def split_written(new, seg_term, eol):
+    """split the text written by one call into the individual _write_segment outputs"""
+    sep = seg_term + eol
+    pieces = []
+    i = 0
+    while i < len(new):
+        j = new.find(sep, i)
+        if j < 0:
+            pieces.append(new[i:])
+            break
+        pieces.append(new[i:j + len(sep)])
+        i = j + len(sep)
+    return pieces
